@@ -10,7 +10,10 @@ HOOKS = {
 
 NOTES = ('All checks are bounded: each harness is decided by the SAT solver for every value of its symbolic domain and says '
          'nothing outside the bounds written in its evidence file (coverage.bounds / outside_bounds / samples[].domain). '
-         'Exit 2 = inconclusive (time-out, OOM, harness no longer compiles against the code, counter-example not reproduced natively).')
+         'A harness that hits its time / memory cap is reported UNDECIDED (listed in the evidence, never counted as held) and does not change the exit code. '
+         'Exit 2 = inconclusive (harness no longer compiles against the code, unwinding assertion, unsatisfied reachability witness, libm contract validation failed, '
+         'counter-example not reproduced natively, or nothing decided within the caps). Genuine defects found and repaired in /repo are listed in known_findings.json (fixed: entries suppress nothing); '
+         'changes seeded to test the checks are under seeded/ (never applied to /repo).')
 
 _PENDING = 'check built but not yet validated on the unchanged tree in this session (see DESIGN.md section 10); claimed once its quick tier passes'
 
